@@ -1144,6 +1144,11 @@ def run(ck: Check):
             results += [r for part in pool.imap(worker, jobs) for r in part]
     ck.coverage['t_workload_s'] = round(time.time() - t0, 1)
     process(ck, results)
+    if not ck.replay_path or os.environ.get('C08_REGION'):
+        # the region algebra the partitioners cut with (CycleInterval,
+        # CircuitRegion): real classes vs Model/Region.lean vs cell sets
+        from harness import c08_region
+        c08_region.run_region(ck)
     ck.coverage['t_total_s'] = round(time.time() - t0, 1)
     ck.coverage['rule'] = (
         'each case: seeded circuit -> real pass in-process -> (c, p, k) '
